@@ -1,1 +1,413 @@
-(* Props/C15.v -- stub, to be filled in *)
+(* Props/C15.v -- property theorems only: Theorem / exact lemma / Check (pins the statement) / Print Assumptions.
+
+   C15: vector arithmetic, reductions, norms and edits match their definitions under any history.
+
+   Proved here, for all lengths, all values, all histories (about the Gallina model Model/Vector.v + VecOps.v,
+   whose Qc and float instances are run against src/vector/*.rs on every check):
+     vec_run_refines       every step of every edit history satisfies its pointwise list specification
+                           (push/push_front/insert/pop/swap/resize/assign/clear/sort/find/set with the exact
+                           panic conditions and classes; sort = ANY sorted permutation: the contract of the
+                           external Vec::sort_unstable_by is a hypothesis on a Section variable);
+     elementwise_spec      + - unary- scalar forms abs entry by entry, the size guard of + and - exactly;
+     sum_slice_spec, product_slice_spec, sum_spec   value on every in-range pair, the exact guard conditions;
+     dot_symmetric, dot_bilinear (any ring);  linspace_ends (any field with `n as T` of characteristic 0);
+     over R: linspace_monotone (strict), non-negativity, homogeneity and the triangle inequality of
+     norm_1 / norm_2 (Cauchy-Schwarz) / norm_inf, and norm_chain (inf <= 2 <= 1).
+   Statements differ from DESIGN Appendix E in two places, forced by the model: (1) vec_run_refines is stated as
+   "every step satisfies a pointwise (nth/length) specification" instead of an equation between two folds,
+   because the model vector already IS a list (absV would be the identity and the equation a tautology);
+   (2) norm_inf returns res (it indexes v[0]: Panic Index on the empty vector), so its laws carry `= Ok m`.
+     over IEEE binary64 (Flocq): dot_exact_float, sum_slice_exact_float, elementwise_exact_float, norm_1_exact_float -- on integer-valued data below 2^53 the float
+     instance returns exactly the integer value of the definition ("exact on exactly-representable data").
+   Not proved (DESIGN section 10): every statement "up to rounding" over f64, Minkowski for general p,
+   powspace / norm_p (libm pow) -- tied by tolerance and searched on every run. *)
+From Coq Require Import List Arith Reals Permutation Sorted QArith Qcanon ZArith.
+From OV Require Import Base.Panic Base.Arith Model.Complex Model.Vector Model.VecOps
+                       Proofs.Vector Proofs.VectorR Proofs.VectorQc Proofs.VectorCx Proofs.VectorRp Proofs.ParDotFloat Proofs.VectorFloat Proofs.VectorFloat2
+                       Inst.QcInst Inst.FloatInst.
+Import ListNotations.
+Local Open Scope nat_scope.
+
+(* [audit_separator]: the driver splits coqc's output at the lines "Closed under the global context" / "Axioms:";
+   after a theorem over R the axiom list would otherwise run on into the next Check's output ("name : type" is
+   read as an axiom name).  Printing the assumptions of a closed lemma right after each such theorem ends the
+   block where the axiom list ends.  It is not a property theorem. *)
+Lemma audit_separator : True.
+Proof. exact I. Qed.
+
+(* ---------------------------------------------------------------- histories *)
+Theorem vec_run_refines : forall (A : Arith) (sorter : list A -> list A),
+  sorter_ok sorter -> forall (ops : list (vop A)) (v : list A), run_spec sorter v ops.
+Proof. intros A sorter Hs ops v. exact (vec_run_refines_lemma sorter Hs ops v). Qed.
+Check vec_run_refines : forall (A : Arith) (sorter : list A -> list A),
+  sorter_ok sorter -> forall (ops : list (vop A)) (v : list A), run_spec sorter v ops.
+Print Assumptions vec_run_refines.
+
+Theorem vec_step_refines : forall (A : Arith) (sorter : list A -> list A),
+  sorter_ok sorter -> forall (v : list A) (o : vop A), step_spec v o (vstep sorter v o).
+Proof. intros A sorter Hs v o. exact (step_refines sorter Hs v o). Qed.
+Check vec_step_refines : forall (A : Arith) (sorter : list A -> list A),
+  sorter_ok sorter -> forall (v : list A) (o : vop A), step_spec v o (vstep sorter v o).
+Print Assumptions vec_step_refines.
+
+(* the sorter with which the model is RUN in the correspondence check (insertion sort on the element order)
+   meets the contract whenever the order is total -- so at Qc the history theorem holds outright *)
+Theorem isort_meets_contract : forall (A : Arith), (forall x y : A, leb x y = true \/ leb y x = true) ->
+  sorter_ok (isort (A := A) leb).
+Proof. intros A Htot. exact (isort_sorter_ok Htot). Qed.
+Check isort_meets_contract : forall (A : Arith), (forall x y : A, leb x y = true \/ leb y x = true) ->
+  sorter_ok (isort (A := A) leb).
+Print Assumptions isort_meets_contract.
+
+Theorem vec_run_refines_Qc : forall (ops : list (vop AQ)) (v : list AQ), run_spec (isort (A := AQ) leb) v ops.
+Proof. intros ops v. exact (vec_run_refines_Qc_lemma ops v). Qed.
+Check vec_run_refines_Qc : forall (ops : list (vop AQ)) (v : list AQ), run_spec (isort (A := AQ) leb) v ops.
+Print Assumptions vec_run_refines_Qc.
+
+(* non-vacuity: the sorter used to RUN the model (insertion sort on Qc's order) meets the contract on a concrete
+   list, and a concrete history runs to the expected state through a panic (pop on empty is skipped) *)
+Example vec_run_refines_nonvacuous :
+  let l := [q 3 1; q (-1) 2; q 2 1; q (-1) 2] in
+  Permutation (isort (A := AQ) leb l) l /\ Sorted (le_rel (A := AQ)) (isort (A := AQ) leb l) /\
+  vrun_state (A := AQ) (isort (A := AQ) leb) [] [@VPop AQ; @VPush AQ (q 3 1); @VPushFront AQ (q 2 1); @VInsert AQ 1 (q 5 1); @VSort AQ; @VSwap AQ 0 2]
+    = [q 5 1; q 3 1; q 2 1].
+Proof.
+  cbv zeta. split; [|split].
+  - vm_compute isort.
+    apply perm_trans with [q (-1) 2; q 3 1; q 2 1; q (-1) 2]; [|apply perm_swap].
+    apply perm_skip.
+    apply perm_trans with [q 3 1; q (-1) 2; q 2 1]; [|apply perm_skip; apply perm_swap].
+    apply perm_trans with [q (-1) 2; q 3 1; q 2 1]; [|apply perm_swap].
+    apply perm_skip. apply perm_swap.
+  - vm_compute isort. repeat (constructor; try reflexivity).
+  - vm_compute. reflexivity.
+Qed.
+
+(* ---------------------------------------------------------------- element-wise operators *)
+Theorem elementwise_spec : forall (A : Arith) (u w : list A) (c : A),
+  (length u = length w -> exists s d, vadd u w = Ok s /\ vsub u w = Ok d /\ length s = length u /\ length d = length u /\
+      forall i, i < length u -> nth i s zero = add (nth i u zero) (nth i w zero) /\
+                                nth i d zero = sub (nth i u zero) (nth i w zero)) /\
+  (length u <> length w -> vadd u w = Panic Guard /\ vsub u w = Panic Guard) /\
+  (length (vneg u) = length u /\ length (vscale u c) = length u /\ length (vscale_l c u) = length u /\
+   length (vabs u) = length u /\ length (vadd_scalar u c) = length u /\ length (vsub_scalar u c) = length u) /\
+  (forall i, i < length u ->
+      nth i (vneg u) zero = neg (nth i u zero) /\ nth i (vscale u c) zero = mul (nth i u zero) c /\
+      nth i (vscale_l c u) zero = mul c (nth i u zero) /\ nth i (vabs u) zero = abs (nth i u zero) /\
+      nth i (vadd_scalar u c) zero = add (nth i u zero) c /\ nth i (vsub_scalar u c) zero = sub (nth i u zero) c).
+Proof. intros A u w c. exact (elementwise_spec_lemma u w c). Qed.
+Check elementwise_spec : forall (A : Arith) (u w : list A) (c : A),
+  (length u = length w -> exists s d, vadd u w = Ok s /\ vsub u w = Ok d /\ length s = length u /\ length d = length u /\
+      forall i, i < length u -> nth i s zero = add (nth i u zero) (nth i w zero) /\
+                                nth i d zero = sub (nth i u zero) (nth i w zero)) /\
+  (length u <> length w -> vadd u w = Panic Guard /\ vsub u w = Panic Guard) /\
+  (length (vneg u) = length u /\ length (vscale u c) = length u /\ length (vscale_l c u) = length u /\
+   length (vabs u) = length u /\ length (vadd_scalar u c) = length u /\ length (vsub_scalar u c) = length u) /\
+  (forall i, i < length u ->
+      nth i (vneg u) zero = neg (nth i u zero) /\ nth i (vscale u c) zero = mul (nth i u zero) c /\
+      nth i (vscale_l c u) zero = mul c (nth i u zero) /\ nth i (vabs u) zero = abs (nth i u zero) /\
+      nth i (vadd_scalar u c) zero = add (nth i u zero) c /\ nth i (vsub_scalar u c) zero = sub (nth i u zero) c).
+Print Assumptions elementwise_spec.
+
+Example elementwise_spec_nonvacuous :
+  length [q 1 2; q 3 1] = length [q 2 1; q (-1) 3] /\
+  vadd (A := AQ) [q 1 2; q 3 1] [q 2 1; q (-1) 3] = Ok [q 5 2; q 8 3] /\
+  length [q 1 2; q 3 1] <> length [q 2 1] /\ vsub (A := AQ) [q 1 2; q 3 1] [q 2 1] = Panic Guard.
+Proof. repeat split; try reflexivity. discriminate. Qed.
+
+Theorem vdiv_spec : forall (F : SArith) (FL : FieldLaws F) (v : list F) (s : F),
+  (s <> zero -> vdiv v s = Ok (map (fun x => mul x (fl_inv F FL s)) v)) /\
+  (s = zero -> v <> [] -> vdiv v s = Panic DivZero) /\
+  (v = [] -> vdiv v s = Ok []).
+Proof. intros F FL v s. exact (vdiv_spec_lemma FL v s). Qed.
+Check vdiv_spec : forall (F : SArith) (FL : FieldLaws F) (v : list F) (s : F),
+  (s <> zero -> vdiv v s = Ok (map (fun x => mul x (fl_inv F FL s)) v)) /\
+  (s = zero -> v <> [] -> vdiv v s = Panic DivZero) /\
+  (v = [] -> vdiv v s = Ok []).
+Print Assumptions vdiv_spec.
+
+(* ---------------------------------------------------------------- complex vectors *)
+Theorem conj_real_spec : forall (F : SArith), RingLaws F -> forall (v : list (cplx F)),
+  length (vconj v) = length v /\ length (vreal v) = length v /\
+  (forall i d, i < length v -> nth i (vconj v) (conj d) = conj (nth i v d)) /\
+  (forall i d, i < length v -> nth i (vreal v) (re d) = re (nth i v d)) /\
+  vconj (vconj v) = v /\ vreal (vconj v) = vreal v.
+Proof. intros F RL v. exact (conj_real_spec_lemma RL v). Qed.
+Check conj_real_spec : forall (F : SArith), RingLaws F -> forall (v : list (cplx F)),
+  length (vconj v) = length v /\ length (vreal v) = length v /\
+  (forall i d, i < length v -> nth i (vconj v) (conj d) = conj (nth i v d)) /\
+  (forall i d, i < length v -> nth i (vreal v) (re d) = re (nth i v d)) /\
+  vconj (vconj v) = v /\ vreal (vconj v) = vreal v.
+Print Assumptions conj_real_spec.
+
+(* ---------------------------------------------------------------- range reductions *)
+Theorem sum_slice_spec : forall (A : Arith) (v : list A) s e,
+  (s <= e -> e < length v ->
+     sum_slice v s e = Ok (sum_n (e - s + 1) (fun k => nth (s + k) v zero))) /\
+  (e < s \/ length v <= e -> sum_slice v s e = Panic Guard).
+Proof. intros A v s e. exact (sum_slice_spec_lemma v s e). Qed.
+Check sum_slice_spec : forall (A : Arith) (v : list A) s e,
+  (s <= e -> e < length v ->
+     sum_slice v s e = Ok (sum_n (e - s + 1) (fun k => nth (s + k) v zero))) /\
+  (e < s \/ length v <= e -> sum_slice v s e = Panic Guard).
+Print Assumptions sum_slice_spec.
+
+Example sum_slice_spec_nonvacuous :
+  1 <= 2 /\ 2 < length [q 1 1; q 1 2; q 1 3; q 5 1] /\
+  sum_slice (A := AQ) [q 1 1; q 1 2; q 1 3; q 5 1] 1 2 = Ok (q 5 6) /\
+  sum_slice (A := AQ) [q 1 1; q 1 2; q 1 3; q 5 1] 2 4 = Panic Guard /\
+  sum_slice (A := AQ) [q 1 1; q 1 2; q 1 3; q 5 1] 3 2 = Panic Guard.
+Proof. repeat split; auto with arith. Qed.
+
+Theorem product_slice_spec : forall (A : Arith) (v : list A) s e,
+  (s <= e -> e < length v ->
+     product_slice v s e = Ok (prod_from (nth s v zero) (e - s) (fun k => nth (s + 1 + k) v zero))) /\
+  (e < s \/ length v <= e -> product_slice v s e = Panic Guard).
+Proof. intros A v s e. exact (product_slice_spec_lemma v s e). Qed.
+Check product_slice_spec : forall (A : Arith) (v : list A) s e,
+  (s <= e -> e < length v ->
+     product_slice v s e = Ok (prod_from (nth s v zero) (e - s) (fun k => nth (s + 1 + k) v zero))) /\
+  (e < s \/ length v <= e -> product_slice v s e = Panic Guard).
+Print Assumptions product_slice_spec.
+
+Example product_slice_spec_nonvacuous :
+  product_slice (A := AQ) [q 2 1; q 1 2; q 3 1; q 5 1] 1 3 = Ok (q 15 2).
+Proof. reflexivity. Qed.
+
+Theorem sum_spec : forall (A : Arith) (v : list A),
+  (v <> [] -> vsum v = Ok (sum_n (length v) (fun k => nth k v zero))) /\ (v = [] -> vsum v = Panic Underflow).
+Proof. intros A v. exact (vsum_spec_lemma v). Qed.
+Check sum_spec : forall (A : Arith) (v : list A),
+  (v <> [] -> vsum v = Ok (sum_n (length v) (fun k => nth k v zero))) /\ (v = [] -> vsum v = Panic Underflow).
+Print Assumptions sum_spec.
+
+(* ---------------------------------------------------------------- dot product over a ring *)
+Theorem dot_symmetric : forall (A : Arith), RingLaws A -> forall (u w : list A), dot u w = dot w u.
+Proof. intros A RL u w. exact (dot_sym_lemma RL u w). Qed.
+Check dot_symmetric : forall (A : Arith), RingLaws A -> forall (u w : list A), dot u w = dot w u.
+Print Assumptions dot_symmetric.
+
+Theorem dot_bilinear : forall (A : Arith), RingLaws A -> forall (u u' w : list A) (c : A),
+  length u = length u' -> length u = length w ->
+  (exists s, vadd u u' = Ok s /\ dot s w = Ok (add (dot_raw u w) (dot_raw u' w))) /\
+  (exists d, vsub u u' = Ok d /\ dot d w = Ok (sub (dot_raw u w) (dot_raw u' w))) /\
+  dot (vscale u c) w = Ok (mul c (dot_raw u w)) /\
+  dot (vneg u) w = Ok (neg (dot_raw u w)) /\
+  (exists s, vadd u u' = Ok s /\ dot w s = Ok (add (dot_raw w u) (dot_raw w u'))) /\
+  dot w (vscale u c) = Ok (mul c (dot_raw w u)).
+Proof. intros A RL u u' w c H1 H2. exact (dot_bilinear_lemma RL u u' w c H1 H2). Qed.
+Check dot_bilinear : forall (A : Arith), RingLaws A -> forall (u u' w : list A) (c : A),
+  length u = length u' -> length u = length w ->
+  (exists s, vadd u u' = Ok s /\ dot s w = Ok (add (dot_raw u w) (dot_raw u' w))) /\
+  (exists d, vsub u u' = Ok d /\ dot d w = Ok (sub (dot_raw u w) (dot_raw u' w))) /\
+  dot (vscale u c) w = Ok (mul c (dot_raw u w)) /\
+  dot (vneg u) w = Ok (neg (dot_raw u w)) /\
+  (exists s, vadd u u' = Ok s /\ dot w s = Ok (add (dot_raw w u) (dot_raw w u'))) /\
+  dot w (vscale u c) = Ok (mul c (dot_raw w u)).
+Print Assumptions dot_bilinear.
+
+Lemma AQ_RingLaws15 : RingLaws AQ.
+Proof. constructor. exact Qcrt. Qed.
+
+Example dot_bilinear_nonvacuous :
+  RingLaws AQ /\ length [q 1 2; q 3 1] = length [q 2 1; q (-1) 3] /\ length [q 1 2; q 3 1] = length [q 4 1; q 6 1] /\
+  dot (A := AQ) [q 1 2; q 3 1] [q 4 1; q 6 1] = Ok (q 20 1).
+Proof. split; [exact AQ_RingLaws15|]. repeat split. Qed.
+
+(* ---------------------------------------------------------------- exactly-representable f64 data (IEEE binary64, Flocq)
+   "match their definitions exactly on exactly-representable data": for integer-valued f64 vectors whose partial sums
+   stay below 2^53 in absolute value no operation of dot / sum_slice rounds -- the float instance of the model returns
+   exactly the integer value of the definition.  [ExactW x z]: x is finite and its real value is the integer z.
+   (The primitive-float modules are not imported here so that Print Assumptions shows qualified axiom names.) *)
+Theorem dot_exact_float : forall (v w : list AF) (zs ws : list Z),
+  Forall2 ExactW v zs -> Forall2 ExactW w ws -> length zs = length ws -> (zadot zs ws < 2 ^ 53)%Z ->
+  exists x, dot (A := AF) v w = Ok x /\ ExactW x (zdot zs ws).
+Proof. intros v w zs ws Hv Hw Hl Hb. exact (dot_exact_float_lemma v w zs ws Hv Hw Hl Hb). Qed.
+Check dot_exact_float : forall (v w : list AF) (zs ws : list Z),
+  Forall2 ExactW v zs -> Forall2 ExactW w ws -> length zs = length ws -> (zadot zs ws < 2 ^ 53)%Z ->
+  exists x, dot (A := AF) v w = Ok x /\ ExactW x (zdot zs ws).
+Print Assumptions dot_exact_float.
+Print Assumptions audit_separator.
+
+Theorem sum_slice_exact_float : forall (v : list AF) (zs : list Z) s e (x : AF),
+  Forall2 ExactW v zs -> (zasuml zs < 2 ^ 53)%Z -> sum_slice (A := AF) v s e = Ok x ->
+  ExactW x (zsuml (slice zs s e)).
+Proof. intros v zs s e x Hv Hb E. exact (sum_slice_exact_float_lemma v zs s e x Hv Hb E). Qed.
+Check sum_slice_exact_float : forall (v : list AF) (zs : list Z) s e (x : AF),
+  Forall2 ExactW v zs -> (zasuml zs < 2 ^ 53)%Z -> sum_slice (A := AF) v s e = Ok x ->
+  ExactW x (zsuml (slice zs s e)).
+Print Assumptions sum_slice_exact_float.
+Print Assumptions audit_separator.
+
+Theorem elementwise_exact_float : forall (u w : list AF) (zs ws : list Z) (c : AF) (k : Z),
+  Forall2 ExactW u zs -> Forall2 ExactW w ws -> length zs = length ws -> ExactW c k ->
+  (Forall (fun p => (Z.abs (fst p + snd p) < 2 ^ 53)%Z) (combine zs ws) ->
+     exists s, vadd (A := AF) u w = Ok s /\ Forall2 ExactW s (map (fun p => (fst p + snd p)%Z) (combine zs ws))) /\
+  (Forall (fun p => (Z.abs (fst p - snd p) < 2 ^ 53)%Z) (combine zs ws) ->
+     exists d, vsub (A := AF) u w = Ok d /\ Forall2 ExactW d (map (fun p => (fst p - snd p)%Z) (combine zs ws))) /\
+  (Forall (fun z => (Z.abs (z * k) < 2 ^ 53)%Z) zs -> Forall2 ExactW (vscale (A := AF) u c) (map (fun z => (z * k)%Z) zs)) /\
+  Forall2 ExactW (vneg (A := AF) u) (map Z.opp zs) /\
+  Forall2 ExactW (vabs (A := AF) u) (map Z.abs zs).
+Proof. intros u w zs ws c k Hu Hw Hl Hc. exact (elementwise_exact_float_lemma u w zs ws c k Hu Hw Hl Hc). Qed.
+Check elementwise_exact_float : forall (u w : list AF) (zs ws : list Z) (c : AF) (k : Z),
+  Forall2 ExactW u zs -> Forall2 ExactW w ws -> length zs = length ws -> ExactW c k ->
+  (Forall (fun p => (Z.abs (fst p + snd p) < 2 ^ 53)%Z) (combine zs ws) ->
+     exists s, vadd (A := AF) u w = Ok s /\ Forall2 ExactW s (map (fun p => (fst p + snd p)%Z) (combine zs ws))) /\
+  (Forall (fun p => (Z.abs (fst p - snd p) < 2 ^ 53)%Z) (combine zs ws) ->
+     exists d, vsub (A := AF) u w = Ok d /\ Forall2 ExactW d (map (fun p => (fst p - snd p)%Z) (combine zs ws))) /\
+  (Forall (fun z => (Z.abs (z * k) < 2 ^ 53)%Z) zs -> Forall2 ExactW (vscale (A := AF) u c) (map (fun z => (z * k)%Z) zs)) /\
+  Forall2 ExactW (vneg (A := AF) u) (map Z.opp zs) /\
+  Forall2 ExactW (vabs (A := AF) u) (map Z.abs zs).
+Print Assumptions elementwise_exact_float.
+Print Assumptions audit_separator.
+
+Theorem norm_1_exact_float : forall (v : list AF) (zs : list Z),
+  Forall2 ExactW v zs -> (zasuml zs < 2 ^ 53)%Z -> ExactW (norm_1 (A := AF) v) (zasuml zs).
+Proof. intros v zs Hv Hb. exact (norm_1_exact_float_lemma v zs Hv Hb). Qed.
+Check norm_1_exact_float : forall (v : list AF) (zs : list Z),
+  Forall2 ExactW v zs -> (zasuml zs < 2 ^ 53)%Z -> ExactW (norm_1 (A := AF) v) (zasuml zs).
+Print Assumptions norm_1_exact_float.
+Print Assumptions audit_separator.
+
+Example exact_float_nonvacuous :
+  Forall2 ExactW ex15_v ex15_z /\ length ex15_z = length ex15_z /\ (zadot ex15_z ex15_z < 2 ^ 53)%Z /\
+  (zasuml ex15_z < 2 ^ 53)%Z /\ is_ok (sum_slice (A := AF) ex15_v 1 3) = true /\ zsuml (slice ex15_z 1 3) = 3%Z.
+Proof. split; [exact ex15_exact|]. repeat split; vm_compute; reflexivity. Qed.
+
+(* ---------------------------------------------------------------- linspace *)
+Theorem linspace_ends : forall (F : SArith), FieldLaws F -> OfNatLaws F -> forall (a b : F) n, 2 <= n ->
+  exists l, linspace a b n = Ok l /\ length l = n /\ hd zero l = a /\ last l zero = b.
+Proof. intros F FL ON a b n H. exact (linspace_ends_lemma FL ON a b n H). Qed.
+Check linspace_ends : forall (F : SArith), FieldLaws F -> OfNatLaws F -> forall (a b : F) n, 2 <= n ->
+  exists l, linspace a b n = Ok l /\ length l = n /\ hd zero l = a /\ last l zero = b.
+Print Assumptions linspace_ends.
+
+Theorem linspace_monotone : forall (a b : R) n, (a < b)%R -> 2 <= n ->
+  exists l, linspace (F := SAR) a b n = Ok l /\ length l = n /\
+            forall i j, i < j < n -> (nth i l 0 < nth j l 0)%R.
+Proof. intros a b n Hab Hn. exact (linspace_monotone_lemma a b n Hab Hn). Qed.
+Check linspace_monotone : forall (a b : R) n, (a < b)%R -> 2 <= n ->
+  exists l, linspace (F := SAR) a b n = Ok l /\ length l = n /\
+            forall i j, i < j < n -> (nth i l 0 < nth j l 0)%R.
+Print Assumptions linspace_monotone.
+Print Assumptions audit_separator.
+
+(* power spacing over R (libm's pow as the real power function rpow): starts at a, ends at b, strictly monotone *)
+Theorem powspace_spec : forall (a b p : R) n, 2 <= n -> (0 < p)%R ->
+  exists l, powspace (F := SAR) rpow a b n p = Ok l /\ length l = n /\ hd 0%R l = a /\ last l 0%R = b /\
+            ((a < b)%R -> forall i j, i < j < n -> (nth i l 0 < nth j l 0)%R).
+Proof. intros a b p n Hn Hp. exact (powspace_spec_lemma a b p n Hn Hp). Qed.
+Check powspace_spec : forall (a b p : R) n, 2 <= n -> (0 < p)%R ->
+  exists l, powspace (F := SAR) rpow a b n p = Ok l /\ length l = n /\ hd 0%R l = a /\ last l 0%R = b /\
+            ((a < b)%R -> forall i j, i < j < n -> (nth i l 0 < nth j l 0)%R).
+Print Assumptions powspace_spec.
+Print Assumptions audit_separator.
+
+(* non-vacuity: the hypotheses hold at R (FieldLaws, OfNatLaws) and for concrete end points *)
+Example linspace_nonvacuous :
+  inhabited (FieldLaws SAR) /\ OfNatLaws SAR /\ (1 < 3)%R /\ 2 <= 5.
+Proof.
+  split; [exact (inhabits AR_FieldLaws)|]. split; [exact SAR_OfNatLaws|]. split; [|auto with arith].
+  apply (Rplus_lt_reg_l (-1)%R). replace (-1 + 1)%R with 0%R by ring. replace (-1 + 3)%R with 2%R by ring. exact Rlt_0_2.
+Qed.
+
+(* ---------------------------------------------------------------- norm laws over R *)
+Theorem norm_nonneg : forall (v : list R),
+  (0 <= norm_1 (A := AR) v)%R /\ (0 <= norm_2 (F := SAR) Rabs v)%R /\
+  (forall m, norm_inf (F := SAR) Rabs v = Ok m -> (0 <= m)%R).
+Proof.
+  intros v. exact (Logic.conj (norm1_nonneg_lemma v) (Logic.conj (norm2_nonneg_lemma v) (norm_inf_nonneg_lemma v))).
+Qed.
+Check norm_nonneg : forall (v : list R),
+  (0 <= norm_1 (A := AR) v)%R /\ (0 <= norm_2 (F := SAR) Rabs v)%R /\
+  (forall m, norm_inf (F := SAR) Rabs v = Ok m -> (0 <= m)%R).
+Print Assumptions norm_nonneg.
+Print Assumptions audit_separator.
+
+Theorem norm_homogeneous : forall (v : list R) (c : R),
+  norm_1 (A := AR) (vscale (A := AR) v c) = (Rabs c * norm_1 (A := AR) v)%R /\
+  norm_2 (F := SAR) Rabs (vscale (A := AR) v c) = (Rabs c * norm_2 (F := SAR) Rabs v)%R /\
+  (forall m, norm_inf (F := SAR) Rabs v = Ok m ->
+             norm_inf (F := SAR) Rabs (vscale (A := AR) v c) = Ok (Rabs c * m)%R).
+Proof.
+  intros v c. exact (Logic.conj (norm1_homog_lemma v c) (Logic.conj (norm2_homog_lemma v c) (norm_inf_homog_lemma v c))).
+Qed.
+Check norm_homogeneous : forall (v : list R) (c : R),
+  norm_1 (A := AR) (vscale (A := AR) v c) = (Rabs c * norm_1 (A := AR) v)%R /\
+  norm_2 (F := SAR) Rabs (vscale (A := AR) v c) = (Rabs c * norm_2 (F := SAR) Rabs v)%R /\
+  (forall m, norm_inf (F := SAR) Rabs v = Ok m ->
+             norm_inf (F := SAR) Rabs (vscale (A := AR) v c) = Ok (Rabs c * m)%R).
+Print Assumptions norm_homogeneous.
+Print Assumptions audit_separator.
+
+Theorem norm1_triangle : forall (u v s : list R), vadd (A := AR) u v = Ok s ->
+  (norm_1 (A := AR) s <= norm_1 (A := AR) u + norm_1 (A := AR) v)%R.
+Proof. intros u v s E. exact (norm1_triangle_lemma u v s E). Qed.
+Check norm1_triangle : forall (u v s : list R), vadd (A := AR) u v = Ok s ->
+  (norm_1 (A := AR) s <= norm_1 (A := AR) u + norm_1 (A := AR) v)%R.
+Print Assumptions norm1_triangle.
+Print Assumptions audit_separator.
+
+Theorem norm2_triangle : forall (u v s : list R), vadd (A := AR) u v = Ok s ->
+  (norm_2 (F := SAR) Rabs s <= norm_2 (F := SAR) Rabs u + norm_2 (F := SAR) Rabs v)%R.
+Proof. intros u v s E. exact (norm2_triangle_lemma u v s E). Qed.
+Check norm2_triangle : forall (u v s : list R), vadd (A := AR) u v = Ok s ->
+  (norm_2 (F := SAR) Rabs s <= norm_2 (F := SAR) Rabs u + norm_2 (F := SAR) Rabs v)%R.
+Print Assumptions norm2_triangle.
+Print Assumptions audit_separator.
+
+Theorem norm_inf_triangle : forall (u v s : list R) (a b : R), vadd (A := AR) u v = Ok s ->
+  norm_inf (F := SAR) Rabs u = Ok a -> norm_inf (F := SAR) Rabs v = Ok b ->
+  exists m, norm_inf (F := SAR) Rabs s = Ok m /\ (m <= a + b)%R.
+Proof. intros u v s a b E Ea Eb. exact (norm_inf_triangle_lemma u v s a b E Ea Eb). Qed.
+Check norm_inf_triangle : forall (u v s : list R) (a b : R), vadd (A := AR) u v = Ok s ->
+  norm_inf (F := SAR) Rabs u = Ok a -> norm_inf (F := SAR) Rabs v = Ok b ->
+  exists m, norm_inf (F := SAR) Rabs s = Ok m /\ (m <= a + b)%R.
+Print Assumptions norm_inf_triangle.
+Print Assumptions audit_separator.
+
+Theorem norm_chain : forall (v : list R), v <> [] ->
+  exists m, norm_inf (F := SAR) Rabs v = Ok m /\
+            (m <= norm_2 (F := SAR) Rabs v)%R /\ (norm_2 (F := SAR) Rabs v <= norm_1 (A := AR) v)%R.
+Proof. intros v H. exact (norm_chain_lemma v H). Qed.
+Check norm_chain : forall (v : list R), v <> [] ->
+  exists m, norm_inf (F := SAR) Rabs v = Ok m /\
+            (m <= norm_2 (F := SAR) Rabs v)%R /\ (norm_2 (F := SAR) Rabs v <= norm_1 (A := AR) v)%R.
+Print Assumptions norm_chain.
+Print Assumptions audit_separator.
+
+(* norm_p, with libm's pow on non-negative arguments taken as the real power function [rpow] (0^p = 0):
+   non-negative, absolutely homogeneous for p > 0, equal to norm_1 at p = 1 and to norm_2 at p = 2 (so their
+   triangle inequality and the chain are laws of norm_p at those exponents).  Minkowski for general p: not proved. *)
+Theorem norm_p_laws : forall (v : list R) (c p : R),
+  (forall m, norm_p (F := SAR) Rabs rpow v p = Ok m -> (0 <= m)%R) /\
+  ((0 < p)%R -> exists m, norm_p (F := SAR) Rabs rpow v p = Ok m /\
+                          norm_p (F := SAR) Rabs rpow (vscale (A := AR) v c) p = Ok (Rabs c * m)%R).
+Proof.
+  intros v c p. exact (Logic.conj (norm_p_nonneg_lemma v p) (norm_p_homog_lemma v c p)).
+Qed.
+Check norm_p_laws : forall (v : list R) (c p : R),
+  (forall m, norm_p (F := SAR) Rabs rpow v p = Ok m -> (0 <= m)%R) /\
+  ((0 < p)%R -> exists m, norm_p (F := SAR) Rabs rpow v p = Ok m /\
+                          norm_p (F := SAR) Rabs rpow (vscale (A := AR) v c) p = Ok (Rabs c * m)%R).
+Print Assumptions norm_p_laws.
+Print Assumptions audit_separator.
+
+Theorem norm_p_at_1_and_2 : forall (v : list R),
+  norm_p (F := SAR) Rabs rpow v 1%R = Ok (norm_1 (A := AR) v) /\
+  norm_p (F := SAR) Rabs rpow v 2%R = Ok (norm_2 (F := SAR) Rabs v).
+Proof. intros v. exact (Logic.conj (norm_p_1_lemma v) (norm_p_2_lemma v)). Qed.
+Check norm_p_at_1_and_2 : forall (v : list R),
+  norm_p (F := SAR) Rabs rpow v 1%R = Ok (norm_1 (A := AR) v) /\
+  norm_p (F := SAR) Rabs rpow v 2%R = Ok (norm_2 (F := SAR) Rabs v).
+Print Assumptions norm_p_at_1_and_2.
+Print Assumptions audit_separator.
+
+(* non-vacuity of the triangle / chain hypotheses: a concrete sum of equal-length real vectors is defined and
+   norm_inf of it is a value *)
+Example norm_laws_nonvacuous :
+  vadd (A := AR) [1; -2]%R [3; 4]%R = Ok [(1 + 3)%R; (-2 + 4)%R] /\
+  [1; -2]%R <> [] /\ exists m, norm_inf (F := SAR) Rabs [1; -2]%R = Ok m.
+Proof.
+  split; [reflexivity|]. split; [discriminate|]. rewrite norm_inf_R. eexists; reflexivity.
+Qed.
